@@ -89,8 +89,8 @@ def fixtures(cfg):
     for i in range(7):
         for j in range(i):
             vals["d%d_%d" % (i, j)] = r.uniform(0.0, 2.0)
-    vals.update(max_chunk=2, which=0, zero_all=False)
-    v2 = dict(vals, max_chunk=1, which=1, zero_all=True)
+    vals.update(max_chunk=2, which=0, zero_all=False, fill=2)
+    v2 = dict(vals, max_chunk=1, which=1, zero_all=True, fill=1)
     return [vals, v2]
 
 
@@ -313,9 +313,12 @@ def h_scorer(ctx, cfg):
         holder.add_theta(_Theta(np, [x for p in range(len(sizes)) for x in means[p][t]],
                                 [x for p in range(len(sizes)) for x in vars_[p][t]]))
     dm = dc.ChunkedDistanceMatrix(nt)
-    for i in range(nt):
-        for j in range(i):
-            dm.add_value(i, j, dist[i][j])
+    # the pairs are stored in row order, in reverse, or rotated (chunks of a distance matrix may be combined in any order)
+    pairs = [(i, j) for i in range(nt) for j in range(i)]
+    fill = int(ctx.int("fill", 0, 2))
+    pairs = pairs if fill == 0 else pairs[::-1] if fill == 1 else pairs[len(pairs) // 2:] + pairs[:len(pairs) // 2]
+    for i, j in pairs:
+        dm.add_value(i, j, dist[i][j])
     plates, start = {}, 0
     ids = [7, 3, 11, 5, 2][:len(sizes)]
     for pid, sz in zip(ids, sizes):
